@@ -8,6 +8,14 @@ from .base_runner import BaseRunner, OrphanedReturn
 from ._verif import point
 
 
+def _is_interrupt(err: BaseException) -> bool:
+    """Whether ``err`` is a KeyboardInterrupt or a group of nothing but those"""
+    children = getattr(err, "exceptions", None)
+    if children:
+        return all(_is_interrupt(child) for child in children)
+    return isinstance(err, KeyboardInterrupt)
+
+
 class TrioRunner(BaseRunner):
     """
     Runner for coroutines with :py:mod:`trio`
@@ -74,7 +82,14 @@ class TrioRunner(BaseRunner):
             raise
 
     def _run_trio_blocking(self):
-        return trio.run(self._manage_payloads_trio)
+        try:
+            return trio.run(self._manage_payloads_trio)
+        except BaseException as err:
+            # trio reports payload failures as (nested) exception groups: a payload that
+            # raised KeyboardInterrupt interrupts the runtime like in any other flavour
+            if _is_interrupt(err):
+                raise KeyboardInterrupt from err
+            raise
 
     async def _manage_payloads_trio(self):
         self._trio_token = trio.lowlevel.current_trio_token()
